@@ -314,6 +314,11 @@ def _hist_shard(hists):
 
 
 def replay(ctx, case):
+    if "cfg" in case:
+        from .. import netrun
+        from . import c01
+
+        return netrun.replay_case(c01.oracle, case)
     core.bind_repo()
     if case.get("history"):
         cold, _ = isolate.run_forked(_cold_child, (case["history"][-1],), timeout=120)
@@ -372,5 +377,17 @@ def run(ctx):
              "(H) every sequence of %d..%d requests over %d requests colliding on the cache key, compared with cache-cold results" % (len(reqs), n_nontrivial, 2, depth, len(names)),
         evaluations=len(reqs) + len(hists), distinct_nontrivial=n_nontrivial + len(hists),
     )
-    return ctx.finish("model_checking", cov, ["scale records follow the TFLite derivation (float product for uint8/FC, double per factor for int8/int16, reduced multiplier for int16 with 64-bit bias)",
-                                             "weight sections are decoded with the tree's reference decoder and compared with the traversal model (A3); the traversal choice rule (part-kernel vs depth-first) is the encoder's documented utilisation rule"])
+    # (N) the slicing the scheduler actually chooses for weights that do not fit the fast storage: every convolution of the emitted
+    # streams must find, through its WEIGHT/SCALE registers, a stream that decodes to exactly its channels (functional executor of C01)
+    from .. import netrun, sweep
+    from . import c01
+
+    plan = [p_ for p_ in sweep.default_plan(ctx.tier) if p_[0].startswith("bigweights")]
+    cov["rule"] += "; (N) the 'bigweights' network level (weights far larger than the fast storage x 5 configurations) compiled by vela.main and executed by the functional executor"
+    cov.pop("evaluations")
+    cov.pop("distinct_nontrivial")
+    return netrun.run(ctx, c01.oracle, "model_checking", rule=cov.pop("rule"),
+                      assumptions=["scale records follow the TFLite derivation (float product for uint8/FC, double per factor for int8/int16, reduced multiplier for int16 with 64-bit bias)",
+                                   "weight sections are decoded with the tree's reference decoder and compared with the traversal model (A3); the traversal choice rule (part-kernel vs depth-first) is the encoder's documented utilisation rule"],
+                      plan=plan, nontrivial_stat="executions", key_fn=lambda key, name: "net|" + key, model_checking=True,
+                      extra_cov=dict(cov, unit_requests=len(reqs), unit_histories=len(hists), unit_nontrivial=n_nontrivial + len(hists)))
